@@ -1,7 +1,7 @@
 NOTES = ("Runtime monitoring of python-jsonpath; see DESIGN.md. Every check shards a seeded hostile workload over 16 processes against the real library "
          "imported from /repo's working tree, decides each execution with a reference-model or differential oracle, records which cells of the mechanism "
          "were reached (hook matrices, sys.monitoring line/raise/call censuses) and replays the witness corpus of repaired defects. Exit 0 = held on what "
-         "was observed, 1 = VIOLATION lines with replay files, 2 = INCONCLUSIVE (a deciding monitor was never reached). 39 genuine defects found by these "
+         "was observed, 1 = VIOLATION lines with replay files, 2 = INCONCLUSIVE (a deciding monitor was never reached). 41 genuine defects found by these "
          "checks on the pinned tree were repaired with fix: commits (known_findings.json); no finding is open.")
 NOT_YET = {}
 BASE_NOTE = "trusted base: CPython 3.12 (sys.monitoring, asyncio, json), the reference models in rt/ (self-tested against the RFC example tables by setup_cmd), the harness's strict JSON equality; bounded by the generators' sizes (documents depth <= 5 / <= 60 in the depth class, short queries, integers within +-2^53)"
@@ -49,5 +49,29 @@ CHECKS = {
  "C20": C("held on every observed match: test/replace/remove through match.pointer() equal the edit made by walking match.parts on a deep copy; nothing else changes",
           "pipeline differential monitoring against direct edits by location"),
 }
+EXTRA = {
+ "C01": " Also: documents with shared container objects, documents built from other Mapping/Sequence implementations, six equivalent environment configurations (fresh, caching off, pass-through hooks, custom match class, flags assigned after construction), an exhaustive index class (-15..15 x lengths 0..6).",
+ "C02": " Also: one compiled object reused over several documents, equivalent environment configurations, equal containers held in different Mapping/Sequence implementations on the two sides of a comparison.",
+ "C03": " Also: the repository's own 719 tests run under the H2 monitor (W0), equivalent environment configurations, an async pass over lazily loaded containers.",
+ "C04": " Also: every case through from_parts / parts-list / relative-pointer construction routes, and JSON-text documents whose earlier results the caller mutated.",
+ "C05": " Also: the builder API given pointer objects built from token lists, and the shared decoding-option history workload (every unicode_escape/uri_decode setting in several orders through every route that parses pointer text).",
+ "C06": " Also: every registered filter function x every argument form on documents of every kind, pointer-object builder routes, long unterminated inputs, known-good canary requests after rejected inputs.",
+ "C07": " Also: environments whose type checks were switched on after construction, and other environments editing their own function registries in the same process.",
+ "C08": " Also: one compiled query evaluated concurrently over several documents with yields inside the getters, dict subclasses with __missing__, a history-independence re-check.",
+ "C09": " Also: the same document under other contexts, in-place updates of the document and of the caller's context mapping between evaluations, caching on/off under a match class with a per-node filter context.",
+ "C10": " Also: comparisons whose operands are parenthesised expressions, overflowing and extreme numeric literals, a history-independence re-check (recompute a sample in reverse order at the end of the shard).",
+ "C11": " Also: fake-root operands, filter contexts, lazy entry points of one compiled object interleaved over two documents.",
+ "C12": " Also: generator-backed sources, a pull-by-iteration-and-abandon operation, Query objects from the public entry points.",
+ "C13": " Also: compound queries mixing $ and ^ operands against the model's fold, repeated regex flag letters, one compiled query re-evaluated while the caller's context mapping is updated in place.",
+ "C14": " Also: one-shot iterables given to from_parts, texts first read under other decoding options (shared decoding-option history workload).",
+ "C15": " Also: builder with pointer objects, the shared decoding-option history workload.",
+ "C16": " Also: bases built by from_parts / to() / join, LF-bearing tokens, suffixes that still contain a backslash sequence after one decoding, the shared decoding-option history workload.",
+ "C17": " Also: role-swapped twin environments run in the same process, the fake root inside filters, the current-key identifier as a function argument.",
+ "C18": " Also: documents whose root is a string (JSON-looking, bracket-bearing), a number or null; label-driven rejection (an input class the statement lists as rejected must be rejected cleanly whatever the library raises).",
+ "C19": " Also: overlapping selections (ordered writes), a multi-environment history (default / no-unicode-escape / renamed-root / hooked getitem) in both orders.",
+ "C20": " Also: replacement by the matched value's bool/number twin, the pointer's string form as a second route, edits after differently configured patches saw the same pointer text.",
+}
+for k, v in CHECKS.items():
+    v["text"] += EXTRA.get(k, "")
 for v in CHECKS.values():
     v["text"] += ". This is exploration-level assurance: a clean run means held on the executions listed in the evidence file, nothing more."
